@@ -1304,6 +1304,24 @@ async def _(mpc):
 OPEN_STEPS['random_derangement of one element and sample with k > n raise ValueError at the call (3 parties); rows keep their entries'] = 300_000
 
 
+@case('C21', 'sqrt of np.diag(w*w) and of a stacked determinant with a singular matrix over GF(5^2) and GF(13^1)', 'fff0cad', numpy=True,
+      expected=[True, True, True, True])
+async def _(mpc):
+    from mpyc import finfields
+    out = []
+    for q in ((5, 2), (13, 1)):
+        F = finfields.GF(finfields.find_irreducible(*q))
+        A = F.array
+        w = A(np.array([1, 2]))
+        D = np.diag(w * w)
+        r = D.sqrt()
+        out.append(bool(np.all(r * r == D)))
+        d = np.linalg.det(np.stack((np.outer(w, w), A(np.array([[1, 0], [0, 1]])))))
+        r = d.sqrt()
+        out.append(bool(np.all(r * r == d)))
+    return out
+
+
 # ---------------------------------------------------------------------------------------------------- driver
 def _close(a, b, tol):
     if isinstance(a, (list, tuple)) and isinstance(b, (list, tuple)):
